@@ -234,6 +234,9 @@ func checkC07(c *Ctx, r *Report) {
 	noGrowByResliceRule(c, r, be)
 	valueErrorPairRule(c, r)
 	paramKindContractRule(c, r)
+	stringConvertRule(c, r)
+	mergeResultRule(c, r)
+	nilConfigArgRule(c, r)
 }
 
 // noGrowByResliceRule (R07k): a node's list ([]value) never grows by re-slicing into its spare
